@@ -29,9 +29,9 @@ from common import seed as verif_seed, rng
 HEADER_STMTS = 11
 
 
-def sim_corpus(tier, kind, withviol=False, n=None):
+def sim_corpus(tier, kind, withviol=False, n=None, sd=None):
     """simulated derivations (cached per spec digest + seed)"""
-    sd = verif_seed()
+    sd = verif_seed() if sd is None else sd
     if n is None:
         n = {("quick", "c"): 1600, ("quick", "h"): 480, ("thorough", "c"): 24000, ("thorough", "h"): 6400}[(tier, kind)]
     lvl = 2 if tier == "quick" else 3
@@ -213,6 +213,8 @@ def run(pid, tier):
             else:
                 R.validated()
     if pid == "C07":
+        import enginemc
+        enginemc.run_into(R, tier)
         engine_traces(R, tier, recs, sd)
         import c07garb
         c07garb.run_into(R, tier)
